@@ -7,6 +7,7 @@ import (
 	"strings"
 	"sync"
 
+	pt "github.com/weedbox/pokertable"
 	sm "github.com/weedbox/pokertable/seat_manager"
 
 	h "verif/harness"
@@ -427,17 +428,18 @@ func max1(a int) int {
 }
 
 type c04Plan struct {
-	bfs   [][2]interface{} // (seats, rule)
-	walks int
-	steps int
+	bfs    [][2]interface{} // (seats, rule)
+	walks  int
+	steps  int
+	tables int
 }
 
 func c04PlanFor(tier string) c04Plan {
-	p := c04Plan{walks: 480, steps: 600}
+	p := c04Plan{walks: 480, steps: 600, tables: 96}
 	maxBFS := 5
 	if tier == "thorough" {
 		maxBFS = 6
-		p.walks, p.steps = 3200, 3000
+		p.walks, p.steps, p.tables = 3200, 3000, 1500
 	}
 	for s := 2; s <= maxBFS; s++ {
 		p.bfs = append(p.bfs, [2]interface{}{s, "default"}, [2]interface{}{s, "short_deck"})
@@ -445,22 +447,81 @@ func c04PlanFor(tier string) c04Plan {
 	return p
 }
 
+// c04Table: the big-blind clause at table level. The seat manager only rotates correctly if the table keeps telling it
+// who has chips; here real tables are played with busts, re-buys, top-ups of busted bystanders while a hand runs,
+// arrivals and departures, and at every open the big blind must sit on the first seat after the previous big-blind
+// seat whose player is seated-in with chips.
+func c04Table(c *h.Ctx) {
+	po := PlayOpts{
+		Hands:    8 + c.R.Intn(10),
+		Churn:    Churn{BetweenP: 0.5, MidP: 0.25, Rebuy: true, BuyIn: true, Leave: true, MidTopup: true, MidJoin: true, MidLeaveOther: true, SitOut: true, ResumePaused: true, RandomSeat: true, Batch: true},
+		Gen:      h.GenOpts{MinSeats: 3, ShortStacks: true, Rules: []string{"default"}},
+		Policies: []string{"maniac", "callstation", "random"},
+		Decks:    []string{"rank", "seeded"},
+	}
+	prevBB, gc, judged := -1, -1, 0
+	mon := &PlayMon{OnEvent: func(p *Play, e *h.Ev) {
+		if e.Kind != h.EvTable || e.T == nil || e.T.State.Status != pt.TableStateStatus_TableGameOpened || e.T.State.GameCount == gc || c.Failed() {
+			return
+		}
+		t := e.T
+		gc = t.State.GameCount
+		n := t.Meta.TableMaxSeatCount
+		bb := t.State.CurrentBBSeat
+		if prevBB >= 0 && bb >= 0 {
+			live := map[int]string{}
+			for _, ps := range t.State.PlayerStates {
+				if ps.IsIn && ps.Bankroll > 0 {
+					live[ps.Seat] = ps.PlayerID
+				}
+			}
+			want := -1
+			for i := 1; i <= n; i++ {
+				if _, ok := live[(prevBB+i)%n]; ok {
+					want = (prevBB + i) % n
+					break
+				}
+			}
+			if want != bb {
+				m := p.witness().(map[string]interface{})
+				m["opened"] = e.Brief()
+				m["seat_manager"] = string(p.SS.S.SMJSON())
+				c.Violate("C04/table/big-blind-not-next-live-seat", fmt.Sprintf("hand %d: previous big-blind seat %d, seated-in players with chips on seats %v: the big blind should be on seat %d, it is on seat %d", gc, prevBB, live, want, bb), m)
+				return
+			}
+			judged++
+			c.Count("table_rotations_judged", 1)
+		}
+		prevBB = bb
+	}}
+	p := RunPlay(c, po, mon)
+	if p == nil {
+		return
+	}
+	c.FP("table", fmt.Sprintf("%+v", p.Cfg), fmt.Sprintf("%+v", p.Ops))
+	if judged > 0 {
+		c.Nontrivial()
+		c.Feature("table-level-rotations")
+	}
+	c.Sample(map[string]interface{}{"kind": "table-level big-blind rule", "cfg": p.Cfg, "hands": len(p.SS.Hands), "rotations_judged": judged})
+}
+
 func init() {
 	h.Register(&h.Check{
 		ID:        "C04",
 		Level:     "exploration",
 		Technique: "runtime monitoring of the real seat manager: exhaustive breadth-first exploration of its reachable states (real code as transition function) for small seat counts plus seeded random walks up to 10 seats, each rotation judged by an independent dead-button reference",
-		Rule: "cases 0..k-1 = complete BFS for one (seat count, rule) pair each (seat counts 2..5 quick / 2..6 thorough, both rules; ops assign/join/bust(dealt-in only)/re-buy/leave/init/rotate addressed by seat, ids canonicalised); remaining cases = random walks of 600 (quick) / 3000 (thorough) operations on 5..10 seats incl. random InitPositions; " +
-			"every case is non-trivial (it judges rotations); distinct = (seat count, rule) for BFS cases, seed for walks",
+		Rule: "cases 0..k-1 = complete BFS for one (seat count, rule) pair each (seat counts 2..5 quick / 2..6 thorough, both rules; ops assign/join/bust(dealt-in only)/re-buy/leave/init/rotate addressed by seat, ids canonicalised); then random walks of 600 (quick) / 3000 (thorough) operations on 5..10 seats incl. random InitPositions; the last 96 (quick) / 1500 (thorough) cases are real tables (default rule, 8..17 hands with busts, re-buys, top-ups of busted bystanders while a hand runs, arrivals, departures) on which every open must put the big blind on the first seat after the previous big-blind seat whose player is seated-in with chips; " +
+			"every seat-manager case is non-trivial (it judges rotations), a table case when it judged a rotation; distinct = (seat count, rule) for BFS cases, seed for walks",
 		Assumptions: []string{
 			"who is dealt in (the Active set after the rotation) is taken as observed - C05 judges waiting",
 			"a ring whose previous small-blind seat is also the new big-blind seat, or whose waiting players had to be released, is judged like the statement's from-heads-up case (dealer = nearest live seat before the small blind): 'dealer = previous small-blind seat' and 'three distinct seats in the order dealer, small blind, big blind' cannot both hold there; 'collapsed' also covers a big blind that moved past the previous small-blind seat",
 			"only dealt-in players can bust",
 		},
-		Cases: func(tier string) int { pl := c04PlanFor(tier); return len(pl.bfs) + pl.walks },
+		Cases: func(tier string) int { pl := c04PlanFor(tier); return len(pl.bfs) + pl.walks + pl.tables },
 		MinNontrivial: func(tier string) int {
 			pl := c04PlanFor(tier)
-			return len(pl.bfs) + pl.walks*9/10
+			return len(pl.bfs) + pl.walks*9/10 + pl.tables/2
 		},
 		CaseTimeout: 1500e9,
 		Post: func(tier string, rs []*h.CaseResult) map[string]interface{} {
@@ -501,6 +562,10 @@ func init() {
 				c.Nontrivial()
 				c.Feature(fmt.Sprintf("bfs:seats=%d,%s", seats, rule))
 				c.Sample(fmt.Sprintf("BFS seats=%d rule=%s", seats, rule))
+				return
+			}
+			if c.Case >= len(pl.bfs)+pl.walks {
+				c04Table(c)
 				return
 			}
 			seats := 5 + c.R.Intn(6)
